@@ -241,6 +241,7 @@ def build(X):
                    why="Ord::min/max are provided trait methods; Verus cannot attach a specification to them")
     ror.rewrite("R3", "for range in ranges", "for range in it: ranges",
                 why="Verus needs a name for the iterator to state the loop invariant")
+    ror.annotate_closures(fn_sigs={"shift_bound": (["i64", "i64"], "Result<i64, Error>")})
     ror.ret_name("res")
     ror.contract("""
         requires
@@ -265,10 +266,8 @@ def build(X):
             current.start is Some ==> current.start->0 >= 1,
             current.end is Some ==> current.end->0 >= 0,
     """)
-    ror.insert_before("let mut range = try_range_into_int(range)?;",
-                      "let ghost prev = current; let ghost orig = range; let ghost hist = it.history@;",
-                      "ghost snapshots of the loop state at the top of the body")
-    ror.insert_after("current = range;", """
+    ror.insert_in_loop(1, "let ghost prev = current; let ghost orig = range; let ghost hist = it.history@;",
+                       """
         proof {
             let lr = lit_range(orig);
             let fp = first_pos(prev);
@@ -281,7 +280,8 @@ def build(X):
             }
             lemma_selected_push(lits(hist), lit_range(orig), 0);
         }
-    """, "proof hint: unfold the oracle one step for the element just consumed")
+    """, "ghost snapshots of the loop state at the top of the body; proof hint at its end: unfold the oracle "
+                       "one step for the element just consumed")
     ror.insert_before("if let Some((s, e)) = current.start.zip(current.end)",
                       "proof { assert(ranges@.take(ranges@.len() as int) =~= ranges@); }",
                       "proof hint: the consumed prefix is the whole vector")
